@@ -135,3 +135,21 @@ Theorem C01_hyrax_check_complete :
     h_check1 keylen point rows (vdot (row_mul (hs_mat st) keylen l) r) pf c = Ok true.
 Proof. exact @h_check_complete. Qed.
 Print Assumptions C01_hyrax_check_complete.
+
+(* IPA (group elements as formal combinations over the published key): the core of completeness.  Whenever the verifier's
+   combined commitment describes the prover's coefficient vector over the key K and its value at z (every coordinate of
+   rcomm0 is <coeffs, K> + p(z) * h'), the L/R elements, final key and final coefficient produced by the log-many
+   halving rounds, for every list of nonzero round challenges, pass the succinct check's final comparison and the
+   final committer key check *)
+From PC Require Import Schemes.LC Schemes.IPA Proofs.IPAFacts.
+Theorem C01_ipa_core_complete :
+  forall (FO : FieldOps) (FL : FieldLaws FO) k hp coeffs z (K : list gv) hchal ls rs fk c hrest rcomm0,
+    length coeffs = (2 ^ k)%nat -> length K = (2 ^ k)%nat ->
+    Forall (fun rc => rc <> 0) (firstn k hchal) ->
+    i_rounds k hp coeffs (powers z (2 ^ k)) K hchal = Ok (ls, rs, fk, c, hrest) ->
+    (forall i, co i rcomm0 = dot coeffs (map (co i) K) + eval coeffs z * co i hp) ->
+    exists rcomm chs, i_fold_lr ls rs hchal rcomm0 [] = Ok (rcomm, chs, hrest) /\ chs = firstn k hchal /\
+      gvzero (gvsub rcomm (gvadd (gvscale c fk) (gvscale (sc_evaluate chs z * c) hp))) = true /\
+      gvzero (gvsub (gmsm K (compute_coeffs chs)) fk) = true.
+Proof. exact @ipa_core_complete. Qed.
+Print Assumptions C01_ipa_core_complete.
